@@ -9,8 +9,7 @@ Definition level_eqb (a b : level) : bool :=
   match a, b with LFail, LFail | LWarn, LWarn | LInfo, LInfo => true | _, _ => false end.
 
 (* ---- small string helpers ---- *)
-Definition drop_last (s : string) : string := of_chars (removelast (chars s)).
-Definition str_skip (n : nat) (s : string) : string := of_chars (skipn n (chars s)).
+(* drop_last (s[:-1]) and str_skip (s[n:]): see Base.v *)
 Definition is_py_space (c : ascii) : bool :=
   let n := nat_of_ascii c in (Nat.leb 9 n && Nat.leb n 13) || Nat.eqb n 32 || (Nat.leb 28 n && Nat.leb n 31).
 Definition str_is_blank (s : string) : bool := forallb is_py_space (chars s).     (* len(s.strip()) == 0 *)
